@@ -495,7 +495,10 @@ class Gen:
         if not live:
             return None
         pool = list(self.m.whowas) + self.nicks[:3]
-        return ("act", self.r.choice(live), {"verb": "WHOWAS", "nick": self.r.choice(pool)})
+        cmd = {"verb": "WHOWAS", "nick": self.r.choice(pool)}
+        if self.r.random() < 0.5:
+            cmd["count"] = self.r.choice([0, 1, 2, 3, 7, 1000000])
+        return ("act", self.r.choice(live), cmd)
 
 
 def _fix_unset_kl(ms):
